@@ -26,6 +26,18 @@ M = {
     "an element type with drop glue; yielded items/order stay correct", ["C15"], "C15 item-drop (token dropped twice) / crash path"),
  "C19-clone-of-clone-leaks": ("C19", "cglue/src/task/mod.rs CRawWaker::to_raw::clone increments the shared record's count twice per clone, so the record (and the caller's waker clone) is never released",
     "a clone of a clone of the foreign-side waker (first-level clones are unaffected) and a counting caller waker", ["C19"], "C19 clone-leaked at the end of the history"),
+ "C03-option-rawptr-treated-as-npo": ("C03", "cglue-gen/src/util.rs is_null_pointer_optimizable also accepts raw pointers, so Option<*const T>/Option<*mut T> is no longer wrapped into COption and a niche-less Rust Option appears in extern \"C\" vtable signatures",
+    "a trait method with an Option whose payload is a raw pointer (argument or return)", ["C03"], "C03 compiler lint (improper_ctypes) on the probe declarations, after Option<raw pointer> shapes were added to the grammar (first missed)"),
+ "C04-group-sorted-by-raw-ident": ("C04", "cglue-gen/src/trait_groups.rs Ord for TraitInfo compares the trait's own identifier instead of the group-visible (alias) name, so aliased optional traits are laid out in a different order",
+    "a group that uses `Trait = Alias` with an alias that sorts differently from the trait name (or two aliased instantiations of one generic trait)", ["C04"], "C04:group-order raw words of generated groups with aliases (aliases and single-request sibling modules added after this seed was first missed)"),
+ "C08-aliased-pair-validated-once": ("C08", "cglue-gen/src/trait_groups.rs vtbl_unwrap_validate de-duplicates by vtable type name, so of two aliased instantiations of one generic trait only the first is validated by check/as_ref/as_mut",
+    "a group with two aliased instantiations of the same generic trait, a request containing both, an implementor enabling only the first", ["C08"], "C08:check-matrix (the exhaustive matrix includes TT<u8>=TTa / TT<u64>=TTb)"),
+ "C09-cbox-send-bound-dropped": ("C09", "cglue/src/boxed.rs: the `T: Send` bound on `Opaquable for CBox<T>` replaced by a lifetime bound",
+    "a boxed container with a !Send payload and a check of the Send marker of the opaque form", ["C09"], "C09:cbox:Send cell of the marker matrix"),
+ "C16-cvec-drop-fn-args-swapped": ("C16", "cglue/src/vec.rs: cglue_drop_vec takes (data, capacity, len) and Drop passes them in that order; the published field type is unchanged",
+    "a C-side caller releasing a CVec with len != capacity through drop_fn(data, len, capacity)", ["C16", "C11"], "C16 CVec view release / C11 drop-fn trampoline arguments"),
+ "C20-optional-vtables-opaque-in-layout": ("C20", "cglue-gen/src/trait_groups.rs: under layout_checks the Option<&Vtbl> fields of optional traits get #[sabi(unsafe_opaque_field)], so edits inside an optional trait of a group compare as Valid",
+    "a group with an optional trait and an edit inside that optional trait", ["C20"], "C20:difference-accepted on pairs where the edited trait is an optional member (edit kind added after this seed was first missed)"),
 }
 for name, (prop, what, needs, caught_by, how) in M.items():
     d = os.path.join(ROOT, name)
